@@ -21,8 +21,9 @@ def _xml(font):
     return "\n".join(lines)
 
 
-def check(data, want_names=None):
-    """data: bytes of the emitted file. want_names: True/False when known (post format)."""
+def check(data, want_names=None, bitmap_glyphs=None):
+    """data: bytes of the emitted file. want_names: True/False when known (post format).
+    bitmap_glyphs: glyph ids that must carry exactly one bitmap (when the caller knows them)."""
     bad = []
     try:
         font = TTFont(io.BytesIO(data), lazy=False)
@@ -92,6 +93,18 @@ def check(data, want_names=None):
             for g in strike.glyphs:
                 if g not in font["hmtx"].metrics:
                     bad.append(("C07.sbix", f"strike {ppem} has unknown glyph {g}"))
+    if bitmap_glyphs is not None:
+        # exactly one bitmap for every glyph the caller knows to be a colour glyph
+        for gid in sorted(bitmap_glyphs):
+            g = order[gid] if gid < len(order) else None
+            if "CBLC" in raw:
+                cnt = sum(1 for sd in font["CBDT"].strikeData if g in sd)
+            elif "sbix" in font:
+                cnt = sum(1 for st in font["sbix"].strikes.values() if g in st.glyphs and st.glyphs[g].imageData)
+            else:
+                continue
+            if cnt != 1:
+                bad.append(("C07.one-bitmap-per-colour-glyph", f"colour glyph {g} (gid {gid}) has {cnt} bitmaps"))
     return bad
 
 
